@@ -145,7 +145,7 @@ def valid_piece(rng, cfg, stratum="A", nseg=(1, 3), nbars=(1, 3), max_notes=7):
             continue
         if info["notes"] == 0:
             continue
-        if stratum == "A" and (not info["greedy_safe"] or not info["duration_ok"]):
+        if stratum == "A" and (not info["greedy_safe"] or not info["duration_ok"] or info["clock_short"]):
             continue
         piece["info"] = info
         return piece
@@ -183,7 +183,7 @@ def analyse(piece, cfg):
     clock_end = inbar[0] + inbar[1] if inbar else last
     ceilD = grid[-1][0] + grid[-1][1] if D > 0 else 0
     return {"valid": valid, "greedy_safe": not stuck, "stuck": stuck[:3], "D": D, "clock_end": clock_end, "ceil_D": ceilD,
-            "duration_ok": max(clock_end, D) == ceilD, "targets": len(targets),
+            "duration_ok": max(clock_end, D) == ceilD, "clock_short": clock_end < D, "targets": len(targets),
             "notes": sum(len(t["notes"]) for t in piece["tracks"])}
 
 
